@@ -305,6 +305,15 @@ def match(real, line, tol=TOL):
         qs = [parse_rat(t) for t in toks[3:]]
         flat = [x for row in rows for x in row]
         return all(close(x, q, tol) for x, q in zip(flat, qs)), ""
+    if tag == "scdlag":
+        # exact integer lag sums from the model; the square roots are taken here
+        if rtag != "num":
+            return False, "tag"
+        import math
+        n = int(toks[1])
+        lags = [int(t) for t in toks[2:]]
+        val = math.fsum(l * math.sqrt(d + 1) for d, l in enumerate(lags)) / n if n else 0.0
+        return close(real[1], val, tol), ""
     if tag == "none":
         return (rtag == "none"), ""
     if tag == "bool":
